@@ -1,7 +1,8 @@
 """C43 - Incremental uploads keep the remote directory equal to the uploaded tree.
 
 Explicit-state search over commit sequences: from a base tree {a, b (exec), d/, d/x, l -> a}
-every sequence of <= 2 (quick) / 3 (thorough) edits from the alphabet {add file/dir/symlink,
+(and a second one with nested directories {a, d/, d/s/, d/s/y}) every sequence of <= 2 (quick)
+/ 3 (thorough; the symlink edits only to depth 2) edits from the alphabet {add file/dir/symlink,
 modify, chmod, retarget, delete (recursive), rename/move to every free name, swap of any two
 unrelated entries, file<->directory<->symlink kind change}, each edit one real commit
 (mc.world.commit_spec on a 2a branch behind the vfs seam).  An upload only reads the previously
@@ -40,9 +41,10 @@ DONT_CARE = (".bzrignore", ".bzrignore-upload", MARKER)
 
 # ---- enumeration ---------------------------------------------------------------
 
-def enumerate_pairs(depth, ignore, symlinks):
+def enumerate_pairs(depth, profile, symlinks):
     """[(X, Y, ops to X, ops X->Y)], deduplicated by canon_pair; simplest first."""
-    base = M.base_tree(ignore)
+    ignore = M.profile(profile)
+    base = ignore.base
     # states X reachable in j <= depth-1 edits (keep the smallest j)
     xs = {M.canon(base): (base, ())}
     level = [(base, ())]
@@ -196,7 +198,7 @@ def diff(exp, got, ign_left):
     return out
 
 
-def check(phase, remote, spec, revid, ignore, err, report):
+def check(phase, remote, spec, revid, ignore, err, report, prev=None):
     """Compare the remote with the tree; returns True when the oracle holds."""
     if err is not None:
         report(phase, "%s:%s" % (err[0], err[1]), None, err[2])
@@ -206,8 +208,33 @@ def check(phase, remote, spec, revid, ignore, err, report):
     if marker is None or marker[0] != "file" or marker[1] != revid:
         problems.append(("marker-is-not-the-uploaded-revision", MARKER))
     for what, p in problems[:1]:
+        if phase in ("incremental", "overwrite-back") and p != MARKER:
+            what = "%s[%s]" % (what, change_class(prev, spec, p))
         report(phase, what, p, None, ["%s %s" % x for x in problems[:6]])
     return not problems
+
+
+def change_class(a, b, path):
+    """How the entry at `path` (in the uploaded tree b, else in the previous tree a) changed from a to b."""
+    e = b.get(path) or a.get(path)
+    if e is None:
+        return "unversioned"
+    pa = {v.fid: (k, v) for k, v in a.items()}.get(e.fid)
+    pb = {v.fid: (k, v) for k, v in b.items()}.get(e.fid)
+    if pa is None:
+        return "added"
+    if pb is None:
+        return "removed"
+    parts = []
+    if pa[0] != pb[0]:
+        parts.append("renamed")
+    if pa[1].kind != pb[1].kind:
+        parts.append("kind-changed")
+    elif pa[1].content != pb[1].content:
+        parts.append("modified")
+    if pa[1].kind == pb[1].kind == "file" and bool(pa[1].exec) != bool(pb[1].exec):
+        parts.append("chmod")
+    return "+".join(parts) or "unchanged"
 
 
 def has_symlink_change(x, y):
@@ -266,7 +293,7 @@ def run_pair(x, y, xops, yops, ignore, acc, audit=False):
         return
     shutil.copytree(remote, remote2, symlinks=True)
     mw.commit_spec(b, ry, [rx], y)
-    ok = check("incremental", remote, y, ry, ignore, upload(w, remote), report)
+    ok = check("incremental", remote, y, ry, ignore, upload(w, remote), report, prev=x)
     acc.count("uploads")
     acc.outcomes.add(("incremental", ok))
     if ok:
@@ -275,7 +302,7 @@ def run_pair(x, y, xops, yops, ignore, acc, audit=False):
         if err is None or err[0] != "DivergedUploadedTree":
             report("older-revision-without-overwrite", "not-refused", None, repr(err))
         # ... and brought back with it
-        ok2 = check("overwrite-back", remote, x, rx, ignore, upload(w, remote, overwrite=True, revid=rx), report)
+        ok2 = check("overwrite-back", remote, x, rx, ignore, upload(w, remote, overwrite=True, revid=rx), report, prev=y)
         acc.count("uploads", 2)
         acc.outcomes.add(("overwrite-back", ok2))
     okf = check("full-over-previous", remote2, y, ry, ignore, upload(w, remote2, full=True), report)
@@ -297,7 +324,7 @@ class Acc(par.Acc):
 
     @staticmethod
     def key(d):
-        return (len(d["uploaded_tree_ops_from_base"]) + len(d["then_commits"]), d["changes"],
+        return (len(d["uploaded_tree_ops_from_base"]) + len(d["then_commits"]), d["changes"], d["ignore_file"],
                 d["uploaded_tree_ops_from_base"], d["then_commits"], d["phase"])
 
     def keep(self, sig, d):
@@ -324,15 +351,30 @@ def _work(chunk):
 
 
 def run(ctx):
-    depth = ctx.q(2, 3)
+    depth = 2
     items = []
     stats = {}
-    for ignore in (False, True):
-        pairs, nx, nodes = enumerate_pairs(depth, ignore, True)
+    runs = [("plain", depth, True), ("ignore", depth, True), ("deep", depth, False)]
+    if ctx.thorough:
+        # depth 3 without the (documentedly unsupported) symlink edits, depth 2 with them
+        runs = [("plain", 3, False), ("plain", 2, True), ("ignore", 2, True), ("deep", 2, False)]
+    seen_pairs = set()
+    for prof, dpt, symlinks in runs:
+        pairs, nx, nodes = enumerate_pairs(dpt, prof, symlinks)
+        ignore = prof == "ignore"
         if ignore:
-            pairs = [p for p in pairs if touches_ignored(p[0], p[1]) and (ctx.thorough or not p[2])]
-        stats["ignore" if ignore else "plain"] = {"uploaded_states": nx, "pairs": len(pairs), "search_nodes": nodes}
-        items.extend((i, ignore, x, y, xo, yo) for i, (x, y, xo, yo) in enumerate(pairs))
+            pairs = [p for p in pairs if touches_ignored(p[0], p[1])]
+        if not ctx.thorough and prof != "plain":
+            pairs = [p for p in pairs if not p[2]]       # quick: only from the base tree
+        fresh = []
+        for p in pairs:
+            k = (prof, M.canon_pair(p[0], p[1]))
+            if k not in seen_pairs:
+                seen_pairs.add(k)
+                fresh.append(p)
+        stats["%s/depth%d%s" % (prof, dpt, "" if symlinks else "/no-symlink-edits")] = {
+            "uploaded_states": nx, "pairs": len(fresh), "search_nodes": nodes}
+        items.extend((i, ignore, x, y, xo, yo) for i, (x, y, xo, yo) in enumerate(fresh))
     # repositories opened by the library are kept alive by reference cycles through extension objects;
     # a fresh worker pool per slice bounds the memory of a worker
     acc = Acc()
@@ -365,7 +407,7 @@ def run(ctx):
         "distinct_outcomes": len(acc.outcomes),
         "rule": "non-trivial = the upload has to apply changes to at least two file ids (rename chains, swaps, "
                 "directory moves with content, edits across skipped revisions)",
-        "depth": depth,
+        "depth": ctx.q(2, 3),
         "search": stats,
         "samples": acc.samples[:3],
         "exhaustive": True,
